@@ -295,6 +295,12 @@ func runEdge(rep *core.Report, e edge, l sim.Layout) {
 			case "DBTruncate":
 				sz, _ := vconn.DBSize()
 				operr = vconn.TruncateDB(sz)
+			case "DBShrink":
+				sz, _ := vconn.DBSize()
+				operr = vconn.TruncateDB(sz - int64(l.PageSize))
+				if operr != nil {
+					operr = vconn.TruncateDB(0) // also open(O_TRUNC)
+				}
 			case "DBRemove":
 				c2 := victim.Connect("db", 43)
 				operr = c2.RemoveDB()
